@@ -159,6 +159,8 @@ def main(argv=None):
 
     # (c)+(d)
     try:
+        from . import samples as _samples
+        _samples.purity_audit(ctx)      # global state / interior mutability / unsafe in /repo/src: the pure model no longer describes the code
         prop.run(ctx)
     except Exception:
         traceback.print_exc()
